@@ -2,28 +2,32 @@
    Property theorems only; proofs live in Multimap2.v (record-level model of MultimapResolver and of the loader),
    MultimapWeight.v (contribution to the count tables) and Multimap.v (key-set level prototype).
    `keep_idx l` is the list of indices MultimapResolver.filter_assignments retains (after find_duplicates),
-   `resolve TakeBest l` the list the resolver returns (same records; assignment types and multimapper flag rewritten). *)
+   `resolve TakeBest l` the list the resolver returns (same records; assignment types and multimapper flag rewritten).
+   The unsuffixed names describe the REPAIRED select_noninformative (fixes/C08_noninformative_tie_break.diff: ties on
+   (overlap, region start) are broken by (chr_id, start, end, isoforms) instead of list order); the `..._unrepaired` names
+   describe the code before that repair (Multimap2.v: both are instances `Gen.xxx tkey` / `Gen.xxx tkey_unrepaired` of one
+   development over the tie-break key).  harness/props/c08.py detects which variant is checked out and uses the matching model. *)
 From Coq Require Import ZArith QArith List Bool Permutation.
 From IQ Require Import CorrSupport Multimap2 MultimapWeight.
 Import ListNotations. Open Scope Z_scope.
 
 (* the model's resolve is select_best_assignment = "apply the verdict keep_idx"; take_best never raises *)
 Theorem C08_resolve_is_verdict : forall l, (1 < length l)%nat -> resolve TakeBest l = Ok (apply_keep l (keep_idx l)).
-Proof. exact resolve_take_best_eq. Qed.
+Proof. exact (Gen.resolve_take_best_eq tkey). Qed.
 Print Assumptions C08_resolve_is_verdict.
 
 Theorem C08_take_best_total : forall l, exists out, resolve TakeBest l = Ok out.
-Proof. exact take_best_never_raises. Qed.
+Proof. exact (Gen.take_best_never_raises tkey). Qed.
 Print Assumptions C08_take_best_total.
 
 (* a primary alignment that is uniquely and consistently assigned wins over all others *)
 Theorem C08_primary_unique_wins : forall l i, (i < length l)%nat -> p_pu (nthr l i) = true ->
   (forall j, (j < length l)%nat -> j <> i -> p_pu (nthr l j) = false) -> keep_idx l = [i].
-Proof. exact primary_unique_wins. Qed.
+Proof. exact (Gen.primary_unique_wins tkey). Qed.
 Print Assumptions C08_primary_unique_wins.
 
 Theorem C08_primary_unique_only : forall l, existsb p_pu l = true -> forall i, In i (keep_idx l) -> p_pu (nthr l i) = true.
-Proof. exact primary_unique_only. Qed.
+Proof. exact (Gen.primary_unique_only tkey). Qed.
 Print Assumptions C08_primary_unique_only.
 
 (* consistent beats inconsistent beats uninformative (and primary inconsistent beats secondary inconsistent) *)
@@ -31,28 +35,28 @@ Theorem C08_class_order : forall l,
   (existsb p_cons l = true -> forall i, In i (keep_idx l) -> p_cons (nthr l i) = true) /\
   (existsb p_cons l = false -> existsb p_inc l = true -> forall i, In i (keep_idx l) -> p_inc (nthr l i) = true) /\
   (existsb p_pi l = true -> existsb p_cons l = false -> forall i, In i (keep_idx l) -> p_pi (nthr l i) = true).
-Proof. exact class_order. Qed.
+Proof. exact (Gen.class_order tkey). Qed.
 Print Assumptions C08_class_order.
 
 (* every retained record is a winner of the best class (lowest penalty among inconsistent ones; best overlap, then lowest
-   region start among uninformative ones), and the read is never lost *)
+   (region start, chr_id, start, end, isoforms) among uninformative ones), and the read is never lost *)
 Theorem C08_kept_are_winners : forall l i, In i (keep_idx l) -> (i < length l)%nat /\ winner l (nthr l i) = true.
-Proof. exact kept_are_winners. Qed.
+Proof. exact (Gen.kept_are_winners tkey). Qed.
 Print Assumptions C08_kept_are_winners.
 
 Theorem C08_read_not_lost : forall l, l <> [] -> keep_idx l <> [].
-Proof. exact keep_idx_nonempty. Qed.
+Proof. exact (Gen.keep_idx_nonempty tkey). Qed.
 Print Assumptions C08_read_not_lost.
 
 (* the alignments that lose are suspended ... *)
 Theorem C08_losers_suspended : forall l out i, (1 < length l)%nat -> resolve TakeBest l = Ok out -> (i < length l)%nat -> ~ In i (keep_idx l) ->
   ty (nthr out i) = Suspended /\ gty (nthr out i) = Suspended.
-Proof. exact losers_suspended. Qed.
+Proof. exact (Gen.losers_suspended tkey). Qed.
 Print Assumptions C08_losers_suspended.
 
 Theorem C08_kept_not_suspended : forall l out i, (1 < length l)%nat -> resolve TakeBest l = Ok out -> In i (keep_idx l) ->
   ty (nthr l i) <> Suspended -> ty (nthr out i) <> Suspended.
-Proof. exact kept_not_suspended. Qed.
+Proof. exact (Gen.kept_not_suspended tkey). Qed.
 Print Assumptions C08_kept_not_suspended.
 
 (* ... and suppressed everywhere: the loader (ReadAssignmentLoader.get_next) drops them before the printers, the counters and
@@ -61,19 +65,19 @@ Print Assumptions C08_kept_not_suspended.
 Theorem C08_losers_skipped_by_loader : forall g out i, (1 < length g)%nat -> resolve TakeBest g = Ok out ->
   NoDup (map (fun r => (aid r, chr r)) g) -> (i < length g)%nat -> ~ In i (keep_idx g) ->
   apply_verdict (nonempty_opt (filter (fun a => chr a =? chr (nthr g i)) out)) (nthr g i) = None.
-Proof. exact losers_skipped_by_loader. Qed.
+Proof. exact (Gen.losers_skipped_by_loader tkey). Qed.
 Print Assumptions C08_losers_skipped_by_loader.
 
 Theorem C08_kept_loaded_with_verdict : forall g out i, (1 < length g)%nat -> resolve TakeBest g = Ok out ->
   NoDup (map (fun r => (aid r, chr r)) g) -> In i (keep_idx g) -> ty (nthr g i) <> Suspended ->
   apply_verdict (nonempty_opt (filter (fun a => chr a =? chr (nthr g i)) out)) (nthr g i) = Some (nthr out i).
-Proof. exact kept_loaded_with_verdict. Qed.
+Proof. exact (Gen.kept_loaded_with_verdict tkey). Qed.
 Print Assumptions C08_kept_loaded_with_verdict.
 
 (* when several assigned loci tie the read is kept on all of them (up to records with the same key) ... *)
 Theorem C08_ties_kept : forall l i, only_uninformative l = false -> (i < length l)%nat -> winner l (nthr l i) = true ->
   exists j, In j (keep_idx l) /\ rec_eq (nthr l j) (nthr l i) = true.
-Proof. exact ties_kept. Qed.
+Proof. exact (Gen.ties_kept tkey). Qed.
 Print Assumptions C08_ties_kept.
 
 (* ... and flagged ambiguous - PARTIAL: only when the retained records together name more than one isoform (resp. gene) *)
@@ -81,7 +85,7 @@ Theorem C08_ties_flagged_partial : forall l out i, (1 < length l)%nat -> resolve
   (change_t l (keep_idx l) = true -> ty (nthr out i) = ambiguity_type (ty (nthr l i)) /\ mm (nthr out i) = true) /\
   (change_g l (keep_idx l) = true -> gty (nthr out i) = ambiguity_type (ty (nthr l i)) /\ mm (nthr out i) = true) /\
   (change_t l (keep_idx l) = false -> change_g l (keep_idx l) = false -> verdict_of (nthr out i) = verdict_of (nthr l i)).
-Proof. exact ties_flagged. Qed.
+Proof. exact (Gen.ties_flagged tkey). Qed.
 Print Assumptions C08_ties_flagged_partial.
 
 (* two retained alignments to one and the same isoform are not flagged *)
@@ -92,44 +96,92 @@ Proof. exact ties_flagged_refuted. Qed.
 (* flagged records are ignored by model construction *)
 Theorem C08_flagged_not_used_for_graph : forall l out i h, (1 < length l)%nat -> resolve TakeBest l = Ok out -> In i (keep_idx l) ->
   change_t l (keep_idx l) || change_g l (keep_idx l) = true -> used_for_graph (nthr out i) h = false.
-Proof. exact flagged_not_used_for_graph. Qed.
+Proof. exact (Gen.flagged_not_used_for_graph tkey). Qed.
 Print Assumptions C08_flagged_not_used_for_graph.
 
 (* uninformative alignments only: exactly one is retained *)
 Theorem C08_uninformative_single : forall l, l <> [] -> only_uninformative l = true ->
   exists b, keep_idx l = [b] /\ (b < length l)%nat /\ best_non l (nthr l b) = true.
-Proof. exact uninformative_single. Qed.
+Proof. exact (Gen.uninformative_single tkey). Qed.
 Print Assumptions C08_uninformative_single.
 
 (* exact duplicates: two records with the same key (read, chromosome, start, end, isoform list) never both survive *)
 Theorem C08_dedup : forall l a b, In a (keep_idx l) -> In b (keep_idx l) -> rec_eq (nthr l a) (nthr l b) = true -> a = b.
-Proof. exact dedup. Qed.
+Proof. exact (Gen.dedup tkey). Qed.
 Print Assumptions C08_dedup.
 
 Theorem C08_no_index_twice : forall l, NoDup (keep_idx l).
-Proof. exact keep_idx_NoDup. Qed.
+Proof. exact (Gen.keep_idx_NoDup tkey). Qed.
 Print Assumptions C08_no_index_twice.
 
-(* the set of retained alignments does not depend on the order of chromosomes, files or records - PARTIAL: provided
-   uninformative alignments that tie on (overlap with the gene region, region start) have the same key *)
-Theorem C08_resolve_perm_invariant_partial : forall l l', Permutation l l' -> no_tie l ->
-  forall k, In k (kept_keys l) <-> In k (kept_keys l').
+(* the set of retained alignments does not depend on the order of chromosomes, files or records.
+   REPAIRED code, full statement: `all` = all alignment records of all chromosomes in any order, `group_of all rid` = the list of
+   the records of read `rid` that collect_reads / resolve_multimappers hand to the resolver; no hypothesis *)
+Theorem C08_resolve_perm_invariant_groups : forall all all' rid, Permutation all all' ->
+  forall k, In k (kept_keys (group_of all rid)) <-> In k (kept_keys (group_of all' rid)).
+Proof. exact resolve_perm_invariant_groups. Qed.
+Print Assumptions C08_resolve_perm_invariant_groups.
+
+Theorem C08_resolve_file_order_invariant : forall (files files':list (Z * list rec)) rid, Permutation files files' ->
+  forall k, In k (kept_keys (group_of (flat_map snd files) rid)) <-> In k (kept_keys (group_of (flat_map snd files') rid)).
+Proof. exact resolve_file_order_invariant. Qed.
+Print Assumptions C08_resolve_file_order_invariant.
+
+(* the same for an arbitrary list handed to `resolve`: no tie hypothesis; the only hypothesis is that the list holds the records
+   of ONE read (the model's `rec` carries the read id as a free field; `group_of` lists satisfy it, C08_group_one_read) *)
+Theorem C08_resolve_perm_invariant : forall l l', Permutation l l' -> one_read l -> forall k, In k (kept_keys l) <-> In k (kept_keys l').
+Proof. exact resolve_perm_invariant. Qed.
+Print Assumptions C08_resolve_perm_invariant.
+
+Theorem C08_group_one_read : forall all rid, one_read (group_of all rid).
+Proof. exact group_one_read. Qed.
+Print Assumptions C08_group_one_read.
+
+Theorem C08_one_read_decidable : forall l, one_read_b l = true -> one_read l.
+Proof. exact one_read_b_sound. Qed.
+Print Assumptions C08_one_read_decidable.
+
+(* the tying pair of the known finding under the repaired code: the same alignment is retained in both orders *)
+Example C08_resolve_perm_invariant_witness : kept_keys [tie1; tie2] = [key_of tie1] /\ kept_keys [tie2; tie1] = [key_of tie1].
+Proof. exact resolve_perm_invariant_witness. Qed.
+
+(* ---- UNREPAIRED code (select_noninformative compares genomic_region[0] alone; known finding C08:uninformative-tie) ---- *)
+(* the literal transcription of the unrepaired scan is the instance of the generic model at the key [genomic_region[0]] *)
+Theorem C08_unrepaired_model_is_literal : forall l idx, pick_noninformative_unrepaired l idx = Gen.pick_noninformative tkey_unrepaired l idx.
+Proof. exact pick_noninformative_unrepaired_eq. Qed.
+Print Assumptions C08_unrepaired_model_is_literal.
+
+(* PARTIAL (unrepaired code): order independence provided uninformative alignments that tie on (overlap with the gene region,
+   region start) have the same key *)
+Theorem C08_resolve_perm_invariant_partial : forall l l', Permutation l l' -> no_tie_unrepaired l ->
+  forall k, In k (kept_keys_unrepaired l) <-> In k (kept_keys_unrepaired l').
 Proof. exact resolve_perm_invariant_partial. Qed.
 Print Assumptions C08_resolve_perm_invariant_partial.
 
-Theorem C08_no_tie_decidable : forall l, no_tie_b l = true -> no_tie l.
+Theorem C08_no_tie_decidable : forall l, no_tie_b_unrepaired l = true -> no_tie_unrepaired l.
 Proof. exact no_tie_b_sound. Qed.
 Print Assumptions C08_no_tie_decidable.
 
-(* without the hypothesis: select_noninformative keeps the first of the tying records in list order *)
+(* REFUTED (unrepaired code) without the hypothesis: select_noninformative keeps the first of the tying records in list order *)
 Example C08_resolve_perm_invariant_refuted :
-  Permutation [tie1; tie2] [tie2; tie1] /\ kept_keys [tie1; tie2] = [key_of tie1] /\ kept_keys [tie2; tie1] = [key_of tie2] /\ key_of tie1 <> key_of tie2.
+  Permutation [tie1; tie2] [tie2; tie1] /\ kept_keys_unrepaired [tie1; tie2] = [key_of tie1] /\ kept_keys_unrepaired [tie2; tie1] = [key_of tie2] /\ key_of tie1 <> key_of tie2.
 Proof. exact resolve_perm_invariant_refuted. Qed.
+
+(* the other statements hold of the unrepaired code as well (they are proved once, for every tie-break key); the two the
+   correspondence on an unrepaired tree relies on: *)
+Theorem C08_resolve_satisfies_spec_unrepaired : forall l out, spec_pre l = true -> resolve_unrepaired TakeBest l = Ok out -> spec_ok_unrepaired l (verdicts out) = true.
+Proof. exact (Gen.resolve_satisfies_spec tkey_unrepaired). Qed.
+Print Assumptions C08_resolve_satisfies_spec_unrepaired.
+
+Theorem C08_uninformative_single_unrepaired : forall l, l <> [] -> only_uninformative l = true ->
+  exists b, keep_idx_unrepaired l = [b] /\ (b < length l)%nat /\ best_non_unrepaired l (nthr l b) = true.
+Proof. exact uninformative_single_unrepaired. Qed.
+Print Assumptions C08_uninformative_single_unrepaired.
 
 (* the decidable specification `spec_ok` that the correspondence evaluates on the IMPLEMENTATION's verdicts (losers suspended,
    only winners kept, no two records with one key, ties kept, re-typed and flagged) is met by the model's verdicts *)
 Theorem C08_resolve_satisfies_spec : forall l out, spec_pre l = true -> resolve TakeBest l = Ok out -> spec_ok l (verdicts out) = true.
-Proof. exact resolve_satisfies_spec. Qed.
+Proof. exact (Gen.resolve_satisfies_spec tkey). Qed.
 Print Assumptions C08_resolve_satisfies_spec.
 
 (* default and --high_memory hand the same per-read lists to the resolver *)
